@@ -296,6 +296,20 @@ def check_derive(fx, rep):
             tk = m.get('tokens') or ''
             if re.search(r'tag\s*=\s*"error"\s*,\s*content\s*=\s*"parameters"', tk) and 'Deserialize' in tk:
                 helper_ok = True
+    # a length hint is a promise: serde_json and the built-in serializer write `{}` at once for Some(0) and append what follows, so a map whose entries are
+    # written conditionally (None members left out) must not announce a count computed from something else than what it writes
+    hint_bad = []
+    for name in ser_fns:
+        for m in A.macros(byname[name]['body']):
+            tk = m.get('tokens') or ''
+            if 'serialize_entry' in tk and re.search(r'\bif\s+let\s+Some\b|\bis_some\s*\(|\bis_none\s*\(|\bif\s+!?\s*#?\w+\s*\.', tk):
+                hint_bad.append(name)
+    cond_fns = sorted(set(hint_bad))
+    some_hint = [name for name in ser_fns for m in A.macros(byname[name]['body']) if re.search(r'serialize_map\s*\(\s*Some\s*\(\s*#', m.get('tokens') or '')]
+    rep.check(not (cond_fns and some_hint), 'R05.4', 'derive|ser-length-hint-matches-entries', F,
+              'the parameters map announces the number of entries it writes (all members are written unconditionally)',
+              'the derive\'s Serialize template writes some members conditionally (%s) but announces a computed length `serialize_map(Some(#..))` (%s): for a value whose present members '
+              'do not match the announced count - all-optional variant, count 0 - the serializer emits `{}` and appends the entries after it' % (cond_fns, sorted(set(some_hint))))
     rep.check(unit_ok, 'R05.4', 'derive|ser-unit-template', F, 'field-less variants encode as a 1-entry map {"error": name}', 'the unit-variant template does not encode exactly {"error": name}')
     rep.check(named_ok, 'R05.4', 'derive|ser-named-template', F, 'variants with fields encode as {"error": name, "parameters": {...}}', 'the named-variant template does not encode `error` then `parameters`')
     rep.check(helper_ok, 'R05.4', 'derive|de-helper-tagged', F, 'the decoding helper enum is adjacently tagged error / parameters', 'the decoding helper enum is not tagged error/parameters')
